@@ -41,18 +41,19 @@ type Opts struct {
 }
 
 type g struct {
-	r          *vc.Rand
-	sr         *vc.Rand // stream of the "is this method streaming" decisions (derived: does not shift r)
-	forced     bool     // Opts.StreamForce has been honoured
-	o          Opts
-	s          *spec.Spec
-	names      map[string]bool // user type names used
-	seq        int
-	solo       []string                 // names of single-validation types (validation profile)
-	chain      []string                 // outer aliases of alias chains whose validations sit on the innermost alias
-	catchAll   map[string]*catchAllInfo // service -> first catch-all route
-	inlinePair map[*spec.Method]bool    // methods whose first two errors are an inline-typed pair sharing a status
-	lastPrefix string
+	r            *vc.Rand
+	sr           *vc.Rand // stream of the "is this method streaming" decisions (derived: does not shift r)
+	forced       bool     // Opts.StreamForce has been honoured
+	o            Opts
+	s            *spec.Spec
+	names        map[string]bool // user type names used
+	seq          int
+	solo         []string                 // names of single-validation types (validation profile)
+	chain        []string                 // outer aliases of alias chains whose validations sit on the innermost alias
+	catchAll     map[string]*catchAllInfo // service -> first catch-all route
+	inlinePair   map[*spec.Method]bool    // methods whose first two errors are an inline-typed pair sharing a status
+	plainArrayOf map[string]string        // service -> result type its first method returns as a plain array
+	lastPrefix   string
 	// unions (union.go): own PRNG stream, the design-level decision, names in use, member types, holder type
 	ur          *vc.Rand
 	unions      bool
@@ -365,7 +366,7 @@ func (x *g) genNestedViewTypes() {
 		{Name: "tiny", Attrs: []spec.ViewAttr{{Name: "ident"}}},
 		{Name: "extended", Attrs: []spec.ViewAttr{{Name: "ident"}, {Name: "title"}, {Name: "secret"}, {Name: "score"}}},
 	}
-	if x.chance(2, 3) {
+	if x.chance(5, 6) {
 		// "title" is required by the type but left out by the tiny view: a client that validates a nested
 		// tiny rendering under another view refuses it
 		leaf.Def.Required = []string{"ident", "title"}
@@ -375,8 +376,8 @@ func (x *g) genNestedViewTypes() {
 	ref := func() *spec.Type { return &spec.Type{Kind: spec.Ref, Ref: leaf.Name} }
 	parent := &spec.UserType{Name: x.typeName("Parent"), Kind: "result", Def: &spec.Type{Kind: spec.Object}}
 	attrView := ""
-	if x.chance(2, 3) {
-		attrView = x.r.Pick("extended", "default", "extended", "tiny")
+	if x.chance(5, 6) {
+		attrView = x.r.Pick("extended", "default", "extended", "tiny", "extended")
 		x.s.AddFeature("attribute-level-view")
 	}
 	parent.Def.Attrs = []*spec.Attr{
@@ -393,7 +394,11 @@ func (x *g) genNestedViewTypes() {
 		usedViews := map[string]bool{}
 		for _, a := range attrs {
 			va := spec.ViewAttr{Name: a}
-			if a != "label" {
+			if a == "primary" && name == "tiny" {
+				// the enclosing view overrides the view named on the attribute itself with a poorer one
+				va.View = "tiny"
+				usedViews["tiny"] = true
+			} else if a != "label" {
 				// different nested views for the attributes of one parent view
 				for i := 0; i < 6; i++ {
 					va.View = pick()
